@@ -117,6 +117,7 @@ R04.7 per-mock options (stub-impl, skip-ensure, with-resets) are read from the i
 		}
 	})
 	accessorTableGuard(c, "R04.9")
+	configResolutionGuard(c, "R04.10")
 }
 
 func matryerMethodRules(c *Ctx, p *TPath) {
